@@ -221,7 +221,7 @@ def check_case(ctx, case):
         for lab, sp in fam:
             names = sorted(S.variables(sp))
             for early in (False, True):
-                if not C.varfree_in_scope(sp):
+                if not C.tree_in_scope(sp):
                     continue
                 mk = lambda: S.build(sp, "tree")
                 for v in (names[:1] or ["x"]) + ["q"]:
